@@ -23,22 +23,22 @@ def passRank (P S q t : Int) : Int :=
   if key q t ≥ key P S then key q t - key P S else key q t - key P S + 0x900 * 65536
 
 /-- successive `vbi_search_next` calls: (status, page formatted last) -/
-def runNexts (exec : Exec) : Cache → SearchSt → List Int → List (Res × Nat × Nat)
+def runNexts (sh : Shape) (exec : Exec) : Cache → SearchSt → List Int → List (Res × Nat × Nat)
   | _, _, [] => []
   | c, s, d :: ds =>
-    let o := searchNext exec walkFuel c s d
-    (o.res, o.st.pgPgno, o.st.pgSubno) :: runNexts exec o.cache o.st ds
+    let o := searchNext sh exec walkFuel c s d
+    (o.res, o.st.pgPgno, o.st.pgSubno) :: runNexts sh exec o.cache o.st ds
 
 /-- OPEN (not proved; the per-call theorems of Props/C17.lean are its building blocks).  A fresh forward search on
     any reachable cache: the calls up to the first NOT_FOUND return exactly the matching pages (each at least once:
     one call per occurrence), never a page that does not match, and NOT_FOUND comes after at most one call per
     occurrence. -/
 def search_exact_full : Prop :=
-  ∀ (exec : Exec) (ops : List PutOp) (P S : Int) (s0 : SearchSt) (n : Nat), (∀ o ∈ ops, o.subno ≤ 0x3F7F) →
+  ∀ (sh : Shape) (exec : Exec) (ops : List PutOp) (P S : Int) (s0 : SearchSt) (n : Nat), (∀ o ∈ ops, o.subno ≤ 0x3F7F) →
     PgOk P → searchNew P S 1 = some s0 →
     (∀ f t ms me, exec f t = some (ms, me) → ms < me) →
     let c := build ops
-    let rs := runNexts exec c s0 (List.replicate n 1)
+    let rs := runNexts sh exec c s0 (List.replicate n 1)
     let pass := rs.takeWhile (fun r => r.1 = .ret SEARCH_SUCCESS)
     (∀ r ∈ pass, Matches exec c r.2.1 r.2.2) ∧
     (pass.length < n → ∀ p s, Matches exec c p s → ∃ r ∈ pass, r.2 = (p, s))
@@ -47,8 +47,8 @@ def search_exact_full : Prop :=
     with the additional hypothesis `NoWrap (build ops)` (`walk_complete_cached`); without it the statement fails at
     65536 cached pages of one page number (C17-D2, 16 bit `n_subpages`). -/
 def walk_complete_full : Prop :=
-  ∀ (ops : List PutOp) (pgno subno dir : Int), (∀ o ∈ ops, o.subno ≤ 0x3F7F) → PgOk pgno → dir = 1 ∨ dir = -1 →
+  ∀ (sh : Shape) (ops : List PutOp) (pgno subno dir : Int), (∀ o ∈ ops, o.subno ≤ 0x3F7F) → PgOk pgno → dir = 1 ∨ dir = -1 →
     ∀ (q : Nat) (e : Entry), PgOk q → e ∈ ((build ops).slots q).chain →
-      ((q : Int), (e.subno : Int), true) ∈ walkPositions (build ops) pgno subno dir
+      ((q : Int), (e.subno : Int), true) ∈ walkPositions sh (build ops) pgno subno dir
 
 end Zvbi.Search
